@@ -23,6 +23,7 @@ import CqlVerif.Drv.Tls
 import CqlVerif.Drv.Late
 import CqlVerif.Drv.Cfg
 import CqlVerif.Drv.Heal
+import CqlVerif.Drv.Shake
 open CqlVerif.Drv
 
 def dispatchStream (stream op real : String) : Verdict :=
@@ -52,6 +53,7 @@ def dispatchStream (stream op real : String) : Verdict :=
   | "late" => LateStream.handle op real
   | "cfg" => CfgStream.handle op real
   | "heal" => HealStream.handle op real
+  | "shake" => ShakeStream.handle op real
   | _ => { kind := "diff", detail := s!"unknown stream {stream}" }
 
 /-- the harness could not set the case up (no port, no connection): that says nothing about the code -/
